@@ -68,15 +68,24 @@ def main():
             tier = a[a.index("--tier") + 1]
         if only:
             muts = [m for m in muts if m["name"] in only]
+        allres = {}
         with cf.ThreadPoolExecutor(par) as ex:
             for name, res in ex.map(lambda m: run_mutant(m, tier, jobs=max(2, 16 // par)), muts):
                 if "error" in res:
                     print("%-34s ERROR %s" % (name, res["error"]))
+                    allres[name] = {"error": res["error"]}
                     continue
+                allres[name] = {}
                 for pid, r in res.items():
                     tag = {0: "MISSED", 1: "CAUGHT", 2: "INCONCL", 3: "HARNESS"}.get(r["rc"], str(r["rc"]))
+                    allres[name][pid] = {"verdict": tag, "first": r["first"][:220]}
                     print("%-34s %s %-8s %s" % (name, pid, tag, r["first"][:200]))
                 sys.stdout.flush()
+        if "--save" in a:
+            path = os.path.join(V, "tools", "mutant_results.json")
+            old = json.load(open(path)) if os.path.exists(path) else {}
+            old.update(allres)
+            json.dump(old, open(path, "w"), indent=1, sort_keys=True)
     else:
         name, file, old, new = a[:4]
         m = {"name": name, "file": file, "old": old, "new": new, "props": a[4:]}
